@@ -3,6 +3,7 @@
 //! note: get_route's add_entry! (the relaxation step of the reverse Dijkstra): a candidate hop is refused if it would take the path over the caller's hop-count or total-CLTV limit, its contribution is capped by what the later hops can carry, and the path's htlc_minimum is met by the amount actually sent over it
 //! trusted: R15 (deep slices of a function-local macro_rules body): add_entry! inside get_route: the statements computing exceeds_max_path_length, exceeds_cltv_delta_limit, value_contribution_msat / contributes_sufficient_value, amount_to_transfer_over_msat and over_path_minimum_msat, verbatim as functions; R18: the macro's metavariables `$x` are alpha-renamed to identifiers `m_x` and bound as parameters; the candidate is a stub with blinded_hint_idx(); scoring, the heap update and everything else of the macro are dropped and not claimed
 //! trusted: R15 (deep slice): get_route: the per-hop statement that records the liquidity a collected path uses (the amount, the `and_modify` update and the `or_insert` value), verbatim as a function of the path value, the hop's next_hops_fee_msat and the amount already used (HashMap entry API dropped: the closure body is applied to the existing amount, the or_insert argument returned)
+//! trusted: R15 (deep slices of add_entry!, second half): the statements computing curr_min / candidate_fees / path_htlc_minimum_msat; hop_use_fee_msat / total_fee_msat and the test against max_total_routing_fee_msat; old_fee_cost / new_fee_cost / old_cost / new_cost; and the block that records the cheaper way in the node's entry and pushes it on the heap (taken with cfg(test)=cfg(fuzzing)=false: the test-only assertions are dropped) — each verbatim as a function of the values in scope; compute_fees_saturating is a stub carrying the contract proved on the real function in u16; the candidate is a skeleton {src_node_counter, fees}; scoring (channel_penalty_msat) is outside: path_penalty_msat is a parameter
 //! assume: the amounts used on a hop fit u64 (the source adds them unchecked; they are bounded by max_htlc_from_capacity, LDK's own debug_assert after the statement)
 //! assume: the caller's max_total_cltv_expiry_delta is below u32::MAX, or the delta sum fits u32 (the sum saturates; with the limit at u32::MAX a saturated sum would not be refused)
 //! trusted: assume_specification for core::cmp::max / core::cmp::min (std definitions)
@@ -70,6 +71,129 @@ impl Candidate { #[verifier::external_body] pub fn blinded_hint_idx(&self) -> (r
     let over_path_minimum_msat = amount_to_transfer_over_msat >= htlc_minimum_msat && amount_to_transfer_over_msat >=
 //@with
     let over_path_minimum_msat = amount_to_transfer_over_msat >= htlc_minimum_msat || amount_to_transfer_over_msat >=
+//@end
+// ---- add_entry!: the minimum a path through this hop must carry, the fees it accumulates, and the test against the caller's fee limit ----
+#[derive(Clone, Copy)] pub struct RoutingFees { pub base_msat: u32, pub proportional_millionths: u32 }
+pub open spec fn fees_spec(amt: int, f: RoutingFees) -> int { f.base_msat as int + amt * (f.proportional_millionths as int) / 1_000_000 }
+pub open spec fn fees_sat(amt: int, f: RoutingFees) -> int {
+    if amt * f.proportional_millionths as int > u64::MAX || fees_spec(amt, f) > u64::MAX { u64::MAX as int } else { fees_spec(amt, f) }
+}
+// compute_fees_saturating: contract proved on the real function in u16
+#[verifier::external_body] pub fn compute_fees_saturating(amount_msat: u64, channel_fees: RoutingFees) -> (r: u64) ensures r as int == fees_sat(amount_msat as int, channel_fees) { unimplemented!() }
+pub struct FeeCandidate { pub src_counter: u32, pub fees: RoutingFees }
+impl FeeCandidate {
+    #[verifier::external_body] pub fn src_node_counter(&self) -> (r: u32) ensures r == self.src_counter { unimplemented!() }
+    #[verifier::external_body] pub fn fees(&self) -> (r: RoutingFees) ensures r == self.fees { unimplemented!() }
+}
+pub open spec fn sat_add(a: int, b: int) -> int { if a + b > u64::MAX { u64::MAX as int } else { a + b } }
+pub open spec fn umax(a: int, b: int) -> int { if a >= b { a } else { b } }
+//@extract lightning/src/routing/router.rs :: fn get_route
+//@metavars
+//@slice R15
+    let curr_min = $a:seq; let src_node_counter = $b:seq; let mut candidate_fees = $c:seq; if $own:cond { $zero:straight } let path_htlc_minimum_msat = $d:seq; let dist_entry
+//@with
+    fn minimum_a_path_through_this_hop_must_carry(m_candidate: &FeeCandidate, m_next_hops_path_htlc_minimum_msat: u64, htlc_minimum_msat: u64, payer_node_counter: u32) -> (u64, RoutingFees) {
+        let curr_min = $a; let src_node_counter = $b; let mut candidate_fees = $c; if $own { $zero } let path_htlc_minimum_msat = $d;
+        (path_htlc_minimum_msat, candidate_fees) }
+//@ret r
+//@ensures P C16 the-minimum-recorded-for-a-path-covers-this-hops-and-the-later-hops-minimums-plus-the-fee-this-hop-charges-on-it-and-our-own-channels-charge-nothing
+    r.1 == (if m_candidate.src_counter == payer_node_counter { RoutingFees { base_msat: 0, proportional_millionths: 0 } } else { m_candidate.fees }),
+    r.0 as int == sat_add(fees_sat(umax(m_next_hops_path_htlc_minimum_msat as int, htlc_minimum_msat as int), r.1), umax(m_next_hops_path_htlc_minimum_msat as int, htlc_minimum_msat as int)),
+//@mutant path_minimum_forgets_the_later_hops
+    let curr_min = cmp::max( m_next_hops_path_htlc_minimum_msat, htlc_minimum_msat );
+//@with
+    let curr_min = cmp::max( htlc_minimum_msat, htlc_minimum_msat );
+//@mutant path_minimum_without_the_fee_charged_on_it
+    let path_htlc_minimum_msat = compute_fees_saturating(curr_min, candidate_fees) .saturating_add(curr_min);
+//@with
+    let path_htlc_minimum_msat = compute_fees_saturating(0, candidate_fees) .saturating_add(curr_min);
+//@end
+pub struct NodeId { pub id: u64 }
+impl vstd::std_specs::cmp::PartialEqSpecImpl for NodeId { open spec fn obeys_eq_spec() -> bool { true } open spec fn eq_spec(&self, other: &NodeId) -> bool { self.id == other.id } }
+impl PartialEq for NodeId { #[verifier::external_body] fn eq(&self, o: &NodeId) -> (r: bool) { self.id == o.id } }
+//@extract lightning/src/routing/router.rs :: fn get_route
+//@metavars
+//@slice R15
+    let mut hop_use_fee_msat = 0; let mut total_fee_msat: u64 = $t:seq; if $notus:cond { $acc:straight } if $over:cond { $ign:any } else {
+//@with
+    fn fees_accumulated_through_this_hop(m_next_hops_fee_msat: u64, amount_to_transfer_over_msat: u64, candidate_fees: RoutingFees, src_node_id: &NodeId, our_node_id: &NodeId, max_total_routing_fee_msat: u64) -> (u64, u64, bool) {
+        let mut hop_use_fee_msat = 0; let mut total_fee_msat: u64 = $t; if $notus { $acc }
+        (hop_use_fee_msat, total_fee_msat, $over) }
+//@ret r
+//@ensures P C16 the-fee-total-recorded-for-a-hop-is-the-later-hops-fees-plus-this-hops-fee-on-the-amount-crossing-it-and-a-total-above-the-callers-limit-is-refused
+    src_node_id.id != our_node_id.id ==> r.0 as int == fees_sat(amount_to_transfer_over_msat as int, candidate_fees) && r.1 as int == sat_add(m_next_hops_fee_msat as int, r.0 as int),
+    src_node_id.id == our_node_id.id ==> r.0 == 0 && r.1 == m_next_hops_fee_msat,
+    r.2 == (r.1 > max_total_routing_fee_msat),
+//@mutant hop_fee_computed_on_the_minimum_instead_of_the_amount_sent
+    hop_use_fee_msat = compute_fees_saturating(amount_to_transfer_over_msat, candidate_fees);
+//@with
+    hop_use_fee_msat = compute_fees_saturating(max_total_routing_fee_msat, candidate_fees);
+//@mutant fee_limit_tested_on_this_hops_fee_alone
+    if total_fee_msat > max_total_routing_fee_msat {
+//@with
+    if hop_use_fee_msat > max_total_routing_fee_msat {
+//@end
+// the record of the best known way to reach a node
+pub struct CandidateId { pub id: u64 }
+impl Clone for CandidateId { #[verifier::external_body] fn clone(&self) -> (r: Self) ensures r == *self { unimplemented!() } }
+pub struct PathBuildingHop { pub candidate: CandidateId, pub fee_msat: u64, pub next_hops_fee_msat: u64, pub hop_use_fee_msat: u64, pub total_fee_msat: u64, pub path_htlc_minimum_msat: u64,
+    pub path_penalty_msat: u64, pub was_processed: bool, pub value_contribution_msat: u64 }
+pub struct RouteGraphNode { pub node_counter: u32, pub score: u128, pub total_cltv_delta: u16, pub value_contribution_msat: u64, pub path_length_to_node: u8 }
+//@extract lightning/src/routing/router.rs :: fn get_route
+//@cfg test=false
+//@cfg fuzzing=false
+//@metavars
+//@slice R15
+    if !old_entry.was_processed && new_cost < old_cost { $upd:straight } else if old_entry.was_processed && new_cost < old_cost {
+//@with
+    fn record_the_cheaper_way_to_reach_the_node(old_entry: &mut PathBuildingHop, targets: &mut Vec<RouteGraphNode>, m_candidate: &CandidateId, new_cost: u128, old_cost: u128, src_node_counter: u32, hop_total_cltv_delta: u32,
+        value_contribution_msat: u64, path_length_to_node: u8, m_next_hops_fee_msat: u64, hop_use_fee_msat: u64, total_fee_msat: u64, path_htlc_minimum_msat: u64, path_penalty_msat: u64) -> Option<u64> {
+        let mut hop_contribution_amt_msat = None;
+        if !old_entry.was_processed && new_cost < old_cost { $upd }
+        hop_contribution_amt_msat }
+//@ret r
+//@ensures P C16 a-cheaper-way-to-reach-a-node-not-yet-processed-replaces-the-known-one-with-exactly-the-fees-minimum-penalty-and-contribution-computed-for-it
+    !(!old(old_entry).was_processed && new_cost < old_cost) ==> *final(old_entry) == *old(old_entry) && final(targets)@ == old(targets)@ && r is None,
+    !old(old_entry).was_processed && new_cost < old_cost ==> r == Some(value_contribution_msat)
+        && *final(old_entry) == (PathBuildingHop { candidate: *m_candidate, fee_msat: 0, next_hops_fee_msat: m_next_hops_fee_msat, hop_use_fee_msat, total_fee_msat, path_htlc_minimum_msat, path_penalty_msat,
+                                                  was_processed: old(old_entry).was_processed, value_contribution_msat })
+        && final(targets)@ == old(targets)@.push(RouteGraphNode { node_counter: src_node_counter, score: new_cost, total_cltv_delta: hop_total_cltv_delta as u16, value_contribution_msat, path_length_to_node }),
+//@mutant this_hops_fee_recorded_as_the_fee_of_the_later_hops
+    old_entry.next_hops_fee_msat = m_next_hops_fee_msat;
+//@with
+    old_entry.next_hops_fee_msat = hop_use_fee_msat;
+//@mutant fee_total_recorded_without_this_hop
+    old_entry.total_fee_msat = total_fee_msat;
+//@with
+    old_entry.total_fee_msat = m_next_hops_fee_msat;
+//@end
+// the two costs compared: cost of a way = (max(fees, minimum it must carry) + penalty) per msat it contributes, in 64.64 fixed point
+pub open spec fn fee_cost(total_fee: int, path_min: int, penalty: int) -> int { sat_add(umax(total_fee, path_min), penalty) }
+//@extract lightning/src/routing/router.rs :: fn get_route
+//@metavars
+//@slice R15
+    let old_fee_cost = $a:seq; let new_fee_cost = $b:seq; let old_cost = $c:seq; let new_cost = $d:seq; if !old_entry.was_processed && new_cost < old_cost {
+//@with
+    fn costs_of_the_known_and_the_new_way(old_entry: &PathBuildingHop, total_fee_msat: u64, path_htlc_minimum_msat: u64, path_penalty_msat: u64, value_contribution_msat: u64) -> (u128, u128) {
+        let old_fee_cost = $a; let new_fee_cost = $b;
+        proof { assert(forall|x: u64| #![trigger (x as u128) << 64u128] ((x as u128) << 64u128) == (x as u128) * 0x1_0000_0000_0000_0000u128) by (bit_vector); }
+        let old_cost = $c; let new_cost = $d; (old_cost, new_cost) }
+//@ret r
+//@requires
+    value_contribution_msat >= 1,
+//@ensures P C16 ways-to-reach-a-node-are-compared-by-fees-or-the-minimum-to-carry-plus-penalty-per-msat-contributed-each-with-its-own-numbers
+    ({ let o = fee_cost(old_entry.total_fee_msat as int, old_entry.path_htlc_minimum_msat as int, old_entry.path_penalty_msat as int);
+       r.0 as int == (if o != u64::MAX && old_entry.value_contribution_msat != 0 { o * 0x1_0000_0000_0000_0000 / (old_entry.value_contribution_msat as int) } else { u128::MAX as int }) }),
+    ({ let n = fee_cost(total_fee_msat as int, path_htlc_minimum_msat as int, path_penalty_msat as int);
+       r.1 as int == (if n != u64::MAX { n * 0x1_0000_0000_0000_0000 / (value_contribution_msat as int) } else { u128::MAX as int }) }),
+//@mutant new_way_costed_with_the_known_ways_penalty
+    let new_fee_cost = cmp::max(total_fee_msat, path_htlc_minimum_msat) .saturating_add(path_penalty_msat);
+//@with
+    let new_fee_cost = cmp::max(total_fee_msat, path_htlc_minimum_msat) .saturating_add(old_entry.path_penalty_msat);
+//@mutant new_way_costed_per_msat_of_the_known_ways_contribution
+    ((new_fee_cost as u128) << 64) / value_contribution_msat as u128
+//@with
+    ((new_fee_cost as u128) << 64) / old_entry.value_contribution_msat as u128
 //@end
 // ---- get_route: what a collected path uses up on each of its hops (so that later paths do not count on the same liquidity) ----
 pub struct UsedHop { pub next_hops_fee_msat: u64 }
